@@ -255,6 +255,7 @@ NbWhy(cls, m, i) ==
 
 -----------------------------------------------------------------------------
 (* mini-batch k-means *)
+Metric == IF "metric" \in DOMAIN In THEN In.metric ELSE "l2"      \* l2 | l1 | linf (KMeans::params_with)
 KmInits ==      \* initial centroids: given, or (random initialisers) any k rows of the first batch
   IF In.init = "pre" THEN {kst}
   ELSE LET b1 == In.batches[1] IN
@@ -269,19 +270,19 @@ KmCentOk(st2) ==
   /\ \A cl \in 1..In.k : /\ Len(Ev.cent[cl]) = D
                          /\ \A j \in 1..D : LET cen == KmCent(st2, cl) IN Abs(Ev.cent[cl][j] - FxDiv(cen[1][j], cen[2])) <= 3
 KmFlagOk(st, st2) ==
-  LET cmp == KmShiftCmp(st, st2, In.k, D, In.tol) IN (cmp = -1 => Ev.ok) /\ (cmp = 1 => ~Ev.ok)
+  LET cmp == KmShiftCmp(st, st2, In.k, D, In.tol, Metric) IN (cmp = -1 => Ev.ok) /\ (cmp = 1 => ~Ev.ok)
 KmRepeatOk == Ev.dig = Ev.dig2 /\ Ev.ok = Ev.ok2
 
 \* the successor states of the k-means specification that explain the event
 KmGood ==
-  UNION {{st2 \in {KmFold(st, In.batches[pos + 1], asg, In.k, D) : asg \in KmAssigns(st, In.batches[pos + 1], 1, In.k, D)} :
+  UNION {{st2 \in {KmFold(st, In.batches[pos + 1], asg, In.k, D) : asg \in KmAssigns(st, In.batches[pos + 1], 1, In.k, D, Metric)} :
                  KmCountsOk(st2) /\ KmCentOk(st2) /\ KmFlagOk(st, st2)} :
               st \in (IF pos = 0 THEN KmInits ELSE {kst})}
 
 KmWhy ==
   LET sts == IF pos = 0 THEN KmInits ELSE {kst}
       cands == UNION {{<<st, KmFold(st, In.batches[pos + 1], asg, In.k, D)>> :
-                         asg \in KmAssigns(st, In.batches[pos + 1], 1, In.k, D)} : st \in sts}
+                         asg \in KmAssigns(st, In.batches[pos + 1], 1, In.k, D, Metric)} : st \in sts}
   IN <<IF KmRepeatOk THEN "" ELSE "rerun-differs",
        IF \E pr \in cands : KmCountsOk(pr[2]) THEN "" ELSE "cluster_count",
        IF \E pr \in cands : KmCountsOk(pr[2]) /\ KmCentOk(pr[2]) THEN "" ELSE "centroids",
